@@ -1,5 +1,8 @@
 //! C10: the field-section size limit at the six sites, on the REAL server / client over SimQuic (scripted peer).
 //!
+//! `lim.adv <srv|cli> <L>` -> `adv=<MAX_FIELD_SECTION_SIZE in the SETTINGS frame h3 wrote|->`
+//! kinds of lim.rx: hdr | trl, then any of .split .clone0 .clone1 .nodata .pend .chunks .second (see struct Flags); P tokens may end in
+//! @f @m @l @c: realistic SETTINGS with companion parameters, MAX_FIELD_SECTION_SIZE first / middle / last / absent
 //! `lim.rx <srv|cli> <hdr|trl> <L> <P|-|none> <section-hex>`
 //!     the endpoint is configured with max_field_section_size = L; the peer's control stream carries SETTINGS with
 //!     MAX_FIELD_SECTION_SIZE = P (`-`: SETTINGS without that parameter, `none`: no SETTINGS at all); the peer then sends a
@@ -47,24 +50,84 @@ fn frame(ty: u64, payload: &[u8]) -> Vec<u8> {
     f
 }
 
-/// Some(Some(p)): SETTINGS with the parameter, Some(None): SETTINGS without it, None: no SETTINGS
-fn parse_peer(s: &str) -> Option<Option<u64>> {
-    match s {
-        "none" => None,
-        "-" => Some(None),
-        v => Some(Some(v.parse().unwrap())),
+/// the peer's control stream for a P token: `none` (no SETTINGS at all) | `-` | `<n>`, optionally `@f`/`@m`/`@l`/`@c`:
+/// the frame also carries QPACK_MAX_TABLE_CAPACITY, QPACK_BLOCKED_STREAMS, H3_DATAGRAM, ENABLE_CONNECT_PROTOCOL and a grease
+/// parameter, with MAX_FIELD_SECTION_SIZE first / in the middle / last (`@c`: companions only)
+fn parse_peer(s: &str) -> Option<Vec<u8>> {
+    if s == "none" {
+        return None;
     }
+    let (v, layout) = match s.split_once('@') {
+        Some((v, l)) => (v, l),
+        None => (s, ""),
+    };
+    let p: Option<u64> = if v == "-" { None } else { Some(v.parse().unwrap()) };
+    Some(control_stream_layout(p, layout))
 }
 
 fn control_stream_bytes(p: Option<u64>) -> Vec<u8> {
-    let mut payload = Vec::new();
+    control_stream_layout(p, "")
+}
+
+fn control_stream_layout(p: Option<u64>, layout: &str) -> Vec<u8> {
+    let companions: Vec<(u64, u64)> = if layout.is_empty() {
+        vec![]
+    } else {
+        vec![(0x01, 0), (0x07, 0), (0x33, 1), (0x08, 1), (0x1f * 3 + 0x21, 5)]
+    };
+    let mut params: Vec<(u64, u64)> = companions.clone();
     if let Some(v) = p {
-        payload.extend(varint(6));
+        let at = match layout {
+            "f" | "" => 0,
+            "m" => companions.len() / 2,
+            _ => companions.len(),
+        };
+        params.insert(at, (6, v));
+    }
+    let mut payload = Vec::new();
+    for (id, v) in params {
+        payload.extend(varint(id));
         payload.extend(varint(v));
     }
     let mut b = vec![0u8]; // stream type: control
     b.extend(frame(4, &payload));
     b
+}
+
+/// the value of MAX_FIELD_SECTION_SIZE in the SETTINGS frame h3 itself wrote on its control stream
+fn advertised(w: &Shared) -> String {
+    let g = w.lock().unwrap();
+    for (id, s) in g.streams.iter() {
+        if !s.local || id & 2 == 0 || s.tx.first() != Some(&0u8) {
+            continue;
+        }
+        let b = &s.tx[..];
+        let mut pos = 1;
+        if read_varint(b, &mut pos) != Some(4) {
+            return "?no-settings-first".into();
+        }
+        let len = match read_varint(b, &mut pos) {
+            Some(l) => l as usize,
+            None => return "?".into(),
+        };
+        let end = (pos + len).min(b.len());
+        let mut found: Vec<u64> = Vec::new();
+        while pos < end {
+            let k = read_varint(b, &mut pos);
+            let v = read_varint(b, &mut pos);
+            match (k, v) {
+                (Some(6), Some(v)) => found.push(v),
+                (Some(_), Some(_)) => {}
+                _ => return "?truncated".into(),
+            }
+        }
+        return match found.as_slice() {
+            [] => "-".into(),
+            [v] => v.to_string(),
+            _ => "?duplicate".into(),
+        };
+    }
+    "?no-control-stream".into()
 }
 
 fn read_varint(b: &[u8], pos: &mut usize) -> Option<u64> {
@@ -163,12 +226,146 @@ fn value_for(k: u64, base: u64) -> Option<String> {
     }
 }
 
+/// SimOpener is not Clone (harness/src/simquic.rs is shared); SendRequest::clone needs a cloneable opener: thin delegating wrappers
+struct CConn(SimConn);
+#[derive(Clone)]
+struct COpener {
+    world: Shared,
+}
+impl h3::quic::OpenStreams<Bytes> for COpener {
+    type BidiStream = SimBidi<Bytes>;
+    type SendStream = SimSend<Bytes>;
+    fn poll_open_bidi(&mut self, cx: &mut std::task::Context<'_>) -> Poll<Result<Self::BidiStream, h3::quic::StreamErrorIncoming>> {
+        let mut o = SimOpener { world: self.world.clone() };
+        <SimOpener as h3::quic::OpenStreams<Bytes>>::poll_open_bidi(&mut o, cx)
+    }
+    fn poll_open_send(&mut self, cx: &mut std::task::Context<'_>) -> Poll<Result<Self::SendStream, h3::quic::StreamErrorIncoming>> {
+        let mut o = SimOpener { world: self.world.clone() };
+        <SimOpener as h3::quic::OpenStreams<Bytes>>::poll_open_send(&mut o, cx)
+    }
+    fn close(&mut self, code: h3::error::Code, reason: &[u8]) {
+        let mut o = SimOpener { world: self.world.clone() };
+        <SimOpener as h3::quic::OpenStreams<Bytes>>::close(&mut o, code, reason)
+    }
+}
+impl h3::quic::OpenStreams<Bytes> for CConn {
+    type BidiStream = SimBidi<Bytes>;
+    type SendStream = SimSend<Bytes>;
+    fn poll_open_bidi(&mut self, cx: &mut std::task::Context<'_>) -> Poll<Result<Self::BidiStream, h3::quic::StreamErrorIncoming>> {
+        <SimConn as h3::quic::OpenStreams<Bytes>>::poll_open_bidi(&mut self.0, cx)
+    }
+    fn poll_open_send(&mut self, cx: &mut std::task::Context<'_>) -> Poll<Result<Self::SendStream, h3::quic::StreamErrorIncoming>> {
+        <SimConn as h3::quic::OpenStreams<Bytes>>::poll_open_send(&mut self.0, cx)
+    }
+    fn close(&mut self, code: h3::error::Code, reason: &[u8]) {
+        <SimConn as h3::quic::OpenStreams<Bytes>>::close(&mut self.0, code, reason)
+    }
+}
+impl h3::quic::Connection<Bytes> for CConn {
+    type RecvStream = SimRecv;
+    type OpenStreams = COpener;
+    fn poll_accept_recv(&mut self, cx: &mut std::task::Context<'_>) -> Poll<Result<Self::RecvStream, h3::quic::ConnectionErrorIncoming>> {
+        <SimConn as h3::quic::Connection<Bytes>>::poll_accept_recv(&mut self.0, cx)
+    }
+    fn poll_accept_bidi(&mut self, cx: &mut std::task::Context<'_>) -> Poll<Result<Self::BidiStream, h3::quic::ConnectionErrorIncoming>> {
+        <SimConn as h3::quic::Connection<Bytes>>::poll_accept_bidi(&mut self.0, cx)
+    }
+    fn opener(&self) -> Self::OpenStreams {
+        COpener { world: self.0.world.clone() }
+    }
+}
+
 type SrvStream = h3::server::RequestStream<SimBidi<Bytes>, Bytes>;
 type CliStream = h3::client::RequestStream<SimBidi<Bytes>, Bytes>;
 
 // ------------------------------------------------------------------ receive side
 
-async fn rx_srv(w: Shared, trl: bool, l: u64, p: Option<Option<u64>>, section: Vec<u8>, cancel: Rc<Cell<bool>>) -> String {
+#[derive(Clone, Copy, Default)]
+struct Flags {
+    trl: bool,
+    split: bool,   // the stream is split() and the RECEIVE half is used
+    clone0: bool,  // client: the request is sent through a clone of SendRequest taken BEFORE the peer's SETTINGS
+    clone1: bool,  // ... taken AFTER the peer's SETTINGS were stored
+    nodata: bool,  // trailers are asked for without a recv_data call first
+    pend: bool,    // recv_trailers is first polled before the FIN has arrived (Pending: "save the trailers")
+    chunks: bool,  // the HEADERS frame arrives in several chunks
+    second: bool,  // the message under test travels on the second request stream of the connection
+}
+
+fn parse_flags(kind: &str) -> Flags {
+    let mut f = Flags::default();
+    for (i, t) in kind.split('.').enumerate() {
+        match (i, t) {
+            (0, "hdr") => {}
+            (0, "trl") => f.trl = true,
+            (_, "split") => f.split = true,
+            (_, "clone0") => f.clone0 = true,
+            (_, "clone1") => f.clone1 = true,
+            (_, "nodata") => f.nodata = true,
+            (_, "pend") => f.pend = true,
+            (_, "chunks") => f.chunks = true,
+            (_, "second") => f.second = true,
+            _ => panic!("driver: kind {}", kind),
+        }
+    }
+    f
+}
+
+fn deliver(w: &Shared, id: u64, bytes: &[u8], chunks: bool) {
+    if chunks && bytes.len() >= 3 {
+        let m = 1 + (bytes.len() - 1) / 2;
+        chunk_ev(w, id, &bytes[..1]);
+        chunk_ev(w, id, &bytes[1..m]);
+        chunk_ev(w, id, &bytes[m..]);
+    } else {
+        chunk_ev(w, id, bytes);
+    }
+}
+
+/// the part after the first HEADERS: `recv_data` (unless nodata) then `recv_trailers`, with the FIN before or after the first poll
+macro_rules! read_trailers {
+    ($s:expr, $fl:expr, $w:expr, $id:expr, $cancel:expr) => {{
+        let mut verdict: Option<String> = None;
+        if !$fl.nodata {
+            match cancellable($s.recv_data(), &$cancel).await {
+                Some(Ok(None)) => {}
+                Some(Ok(Some(_))) => verdict = Some("unexpected-data".into()),
+                Some(Err(e)) => verdict = Some(format!("data-err:{}", stream_err(&e))),
+                None => verdict = Some("hang".into()),
+            }
+        }
+        match verdict {
+            Some(v) => v,
+            None => {
+                let r = if $fl.pend {
+                    let mut fut = Box::pin($s.recv_trailers());
+                    let first = poll_fn(|cx| match fut.as_mut().poll(cx) {
+                        Poll::Ready(x) => Poll::Ready(Some(x)),
+                        Poll::Pending => Poll::Ready(None),
+                    })
+                    .await;
+                    match first {
+                        Some(r) => Some(r),
+                        None => {
+                            ev(&$w, format!("{}:F", $id));
+                            cancellable(fut, &$cancel).await
+                        }
+                    }
+                } else {
+                    cancellable($s.recv_trailers(), &$cancel).await
+                };
+                match r {
+                    Some(Ok(Some(_))) => "ok".to_string(),
+                    Some(Ok(None)) => "none".to_string(),
+                    Some(Err(e)) => format!("err:{}", stream_err(&e)),
+                    None => "hang".into(),
+                }
+            }
+        }
+    }};
+}
+
+async fn rx_srv(w: Shared, fl: Flags, l: u64, p: Option<Vec<u8>>, section: Vec<u8>, cancel: Rc<Cell<bool>>) -> String {
     let mut b = h3::server::builder();
     b.send_grease(false).max_field_section_size(l);
     let mut conn: h3::server::Connection<SimConn, Bytes> = match cancellable(b.build(SimConn { world: w.clone() }), &cancel).await {
@@ -177,35 +374,47 @@ async fn rx_srv(w: Shared, trl: bool, l: u64, p: Option<Option<u64>>, section: V
     };
     if let Some(pp) = p {
         ev(&w, "U2".into());
-        chunk_ev(&w, 2, &control_stream_bytes(pp));
+        chunk_ev(&w, 2, &pp);
         let _ = poll_once(conn.accept()).await;
     }
-    ev(&w, "B0".into());
-    if trl {
+    let mut id = 0u64;
+    if fl.second {
+        // a complete first exchange on stream 0 (only when the minimal request fits)
+        ev(&w, "B0".into());
         chunk_ev(&w, 0, &frame(1, &unhex(MIN_REQUEST)));
+        ev(&w, "0:F".into());
+        if let Some(Ok(Some(resolver))) = cancellable(conn.accept(), &cancel).await {
+            if let Some(Ok((_r, s0))) = cancellable(resolver.resolve_request(), &cancel).await {
+                std::mem::forget(s0);
+            }
+        }
+        id = 4;
     }
-    chunk_ev(&w, 0, &frame(1, &section));
-    ev(&w, "0:F".into());
+    ev(&w, format!("B{}", id));
+    if fl.trl {
+        chunk_ev(&w, id, &frame(1, &unhex(MIN_REQUEST)));
+    }
+    deliver(&w, id, &frame(1, &section), fl.chunks);
+    if !fl.pend {
+        ev(&w, format!("{}:F", id));
+    }
     let res = match cancellable(conn.accept(), &cancel).await {
         Some(Ok(Some(resolver))) => match cancellable(resolver.resolve_request(), &cancel).await {
             Some(Ok((_req, mut s))) => {
-                let r = if trl {
-                    match cancellable(s.recv_data(), &cancel).await {
-                        Some(Ok(None)) => match cancellable(s.recv_trailers(), &cancel).await {
-                            Some(Ok(Some(_))) => "ok".to_string(),
-                            Some(Ok(None)) => "none".to_string(),
-                            Some(Err(e)) => format!("err:{}", stream_err(&e)),
-                            None => "hang".into(),
-                        },
-                        Some(Ok(Some(_))) => "unexpected-data".into(),
-                        Some(Err(e)) => format!("data-err:{}", stream_err(&e)),
-                        None => "hang".into(),
-                    }
-                } else {
+                if !fl.trl {
+                    std::mem::forget(s);
                     "ok".to_string()
-                };
-                std::mem::forget(s);
-                r
+                } else if fl.split {
+                    let (send, mut recv) = s.split();
+                    let r = read_trailers!(recv, fl, w, id, cancel);
+                    std::mem::forget(send);
+                    std::mem::forget(recv);
+                    r
+                } else {
+                    let r = read_trailers!(s, fl, w, id, cancel);
+                    std::mem::forget(s);
+                    r
+                }
             }
             Some(Err(e)) => format!("err:{}", stream_err(&e)),
             None => "hang".into(),
@@ -217,62 +426,92 @@ async fn rx_srv(w: Shared, trl: bool, l: u64, p: Option<Option<u64>>, section: V
     // let the connection driver act on what the stream reported (a connection error is closed there)
     let _ = poll_once(conn.accept()).await;
     std::mem::forget(conn);
-    res
+    format!("{} id={}", res, id)
 }
 
-async fn rx_cli(w: Shared, trl: bool, l: u64, p: Option<Option<u64>>, section: Vec<u8>, cancel: Rc<Cell<bool>>) -> String {
+async fn rx_cli(w: Shared, fl: Flags, l: u64, p: Option<Vec<u8>>, section: Vec<u8>, cancel: Rc<Cell<bool>>) -> String {
     let mut b = h3::client::builder();
     b.send_grease(false).max_field_section_size(l);
-    let (mut conn, mut sr): (h3::client::Connection<SimConn, Bytes>, h3::client::SendRequest<SimOpener, Bytes>) =
-        match cancellable(b.build(SimConn { world: w.clone() }), &cancel).await {
+    let (mut conn, mut sr): (h3::client::Connection<CConn, Bytes>, h3::client::SendRequest<COpener, Bytes>) =
+        match cancellable(b.build(CConn(SimConn { world: w.clone() })), &cancel).await {
             Some(Ok(c)) => c,
             _ => return "build-err".into(),
         };
+    let early_clone = if fl.clone0 { Some(sr.clone()) } else { None };
     if let Some(pp) = p {
         ev(&w, "U3".into());
-        chunk_ev(&w, 3, &control_stream_bytes(pp));
+        chunk_ev(&w, 3, &pp);
         let _ = poll_once(poll_fn(|cx| conn.poll_close(cx))).await;
     }
+    let mut sender = match early_clone {
+        Some(c) => c,
+        None if fl.clone1 => sr.clone(),
+        None => sr.clone(),
+    };
+    // (the primary handle is used unless a clone flag is given)
+    let use_primary = !(fl.clone0 || fl.clone1);
+    if fl.second {
+        let req = http::Request::builder().method("GET").uri("https://a/").body(()).unwrap();
+        if let Some(Ok(mut s0)) = cancellable(sr.send_request(req), &cancel).await {
+            let _ = cancellable(s0.finish(), &cancel).await;
+            let id0 = s0.id().into_inner();
+            chunk_ev(&w, id0, &frame(1, &unhex(MIN_RESPONSE)));
+            ev(&w, format!("{}:F", id0));
+            let _ = cancellable(s0.recv_response(), &cancel).await;
+            std::mem::forget(s0);
+        }
+    }
     let req = http::Request::builder().method("GET").uri("https://a/").body(()).unwrap();
-    let mut s: CliStream = match cancellable(sr.send_request(req), &cancel).await {
+    let sent = if use_primary {
+        cancellable(sr.send_request(req), &cancel).await
+    } else {
+        cancellable(sender.send_request(req), &cancel).await
+    };
+    let mut s: CliStream = match sent {
         Some(Ok(s)) => s,
-        Some(Err(e)) => return format!("send-err:{}", stream_err(&e)),
-        None => return "hang".into(),
+        Some(Err(e)) => return format!("send-err:{} id=0", stream_err(&e)),
+        None => return "hang id=0".into(),
     };
     let _ = cancellable(s.finish(), &cancel).await;
-    // forget what the request itself wrote: the observation is what h3 writes in reaction
     let id = s.id().into_inner();
-    if trl {
+    if fl.trl {
         chunk_ev(&w, id, &frame(1, &unhex(MIN_RESPONSE)));
     }
-    chunk_ev(&w, id, &frame(1, &section));
-    ev(&w, format!("{}:F", id));
-    let res = match cancellable(s.recv_response(), &cancel).await {
-        Some(Ok(_)) => {
-            if trl {
-                match cancellable(s.recv_data(), &cancel).await {
-                    Some(Ok(None)) => match cancellable(s.recv_trailers(), &cancel).await {
-                        Some(Ok(Some(_))) => "ok".to_string(),
-                        Some(Ok(None)) => "none".to_string(),
-                        Some(Err(e)) => format!("err:{}", stream_err(&e)),
-                        None => "hang".into(),
-                    },
-                    Some(Ok(Some(_))) => "unexpected-data".into(),
-                    Some(Err(e)) => format!("data-err:{}", stream_err(&e)),
-                    None => "hang".into(),
+    deliver(&w, id, &frame(1, &section), fl.chunks);
+    if !(fl.trl && fl.pend) {
+        ev(&w, format!("{}:F", id));
+    }
+    macro_rules! tail {
+        ($st:expr) => {{
+            match cancellable($st.recv_response(), &cancel).await {
+                Some(Ok(_)) => {
+                    if fl.trl {
+                        read_trailers!($st, fl, w, id, cancel)
+                    } else {
+                        "ok".to_string()
+                    }
                 }
-            } else {
-                "ok".to_string()
+                Some(Err(e)) => format!("err:{}", stream_err(&e)),
+                None => "hang".into(),
             }
-        }
-        Some(Err(e)) => format!("err:{}", stream_err(&e)),
-        None => "hang".into(),
+        }};
+    }
+    let res = if fl.split {
+        let (send, mut recv) = s.split();
+        let r = tail!(recv);
+        std::mem::forget(send);
+        std::mem::forget(recv);
+        r
+    } else {
+        let r = tail!(s);
+        std::mem::forget(s);
+        r
     };
     let _ = poll_once(poll_fn(|cx| conn.poll_close(cx))).await;
-    std::mem::forget(s);
     std::mem::forget(conn);
     std::mem::forget(sr);
-    res
+    std::mem::forget(sender);
+    format!("{} id={}", res, id)
 }
 
 // ------------------------------------------------------------------ send side
@@ -297,7 +536,7 @@ fn trailers_map(k: u64) -> http::HeaderMap {
     m
 }
 
-async fn tx_srv(w: Shared, own: u64, p: Option<u64>, ops: Vec<String>, cancel: Rc<Cell<bool>>) -> String {
+async fn tx_srv(w: Shared, own: u64, p: Vec<u8>, ops: Vec<String>, cancel: Rc<Cell<bool>>) -> String {
     let mut b = h3::server::builder();
     b.send_grease(false).max_field_section_size(own);
     let mut conn: h3::server::Connection<SimConn, Bytes> = match cancellable(b.build(SimConn { world: w.clone() }), &cancel).await {
@@ -322,7 +561,7 @@ async fn tx_srv(w: Shared, own: u64, p: Option<u64>, ops: Vec<String>, cancel: R
         match &op[..1] {
             "S" => {
                 ev(&w, "U2".into());
-                chunk_ev(&w, 2, &control_stream_bytes(p));
+                chunk_ev(&w, 2, &p);
                 let _ = poll_once(conn.accept()).await;
                 out.push("S".into());
             }
@@ -354,7 +593,7 @@ async fn tx_srv(w: Shared, own: u64, p: Option<u64>, ops: Vec<String>, cancel: R
     out.join(" ")
 }
 
-async fn tx_cli(w: Shared, own: u64, p: Option<u64>, ops: Vec<String>, cancel: Rc<Cell<bool>>) -> String {
+async fn tx_cli(w: Shared, own: u64, p: Vec<u8>, ops: Vec<String>, cancel: Rc<Cell<bool>>) -> String {
     let mut b = h3::client::builder();
     b.send_grease(false).max_field_section_size(own);
     let (mut conn, mut sr): (h3::client::Connection<SimConn, Bytes>, h3::client::SendRequest<SimOpener, Bytes>) =
@@ -369,7 +608,7 @@ async fn tx_cli(w: Shared, own: u64, p: Option<u64>, ops: Vec<String>, cancel: R
         match &op[..1] {
             "S" => {
                 ev(&w, "U3".into());
-                chunk_ev(&w, 3, &control_stream_bytes(p));
+                chunk_ev(&w, 3, &p);
                 let _ = poll_once(poll_fn(|cx| conn.poll_close(cx))).await;
                 out.push("S".into());
             }
@@ -427,7 +666,7 @@ async fn tx_cli(w: Shared, own: u64, p: Option<u64>, ops: Vec<String>, cancel: R
     out.join(" ")
 }
 
-async fn txw_cli(w: Shared, own: u64, p: Option<u64>, k: u64, cancel: Rc<Cell<bool>>) -> String {
+async fn txw_cli(w: Shared, own: u64, p: Vec<u8>, k: u64, cancel: Rc<Cell<bool>>) -> String {
     let mut b = h3::client::builder();
     b.send_grease(false).max_field_section_size(own);
     let (mut conn, mut sr): (h3::client::Connection<SimConn, Bytes>, h3::client::SendRequest<SimOpener, Bytes>) =
@@ -455,7 +694,7 @@ async fn txw_cli(w: Shared, own: u64, p: Option<u64>, k: u64, cancel: Rc<Cell<bo
         None => {
             // 2. the peer's SETTINGS arrive and the driver stores them
             ev(&w, "U3".into());
-            chunk_ev(&w, 3, &control_stream_bytes(p));
+            chunk_ev(&w, 3, &p);
             let _ = poll_once(poll_fn(|cx| conn.poll_close(cx))).await;
             // 3. credit for one bidirectional stream
             ev(&w, "H1".into());
@@ -516,21 +755,23 @@ fn main() {
         ["lim.rx", role, kind, l, p, section] => {
             let l: u64 = l.parse().unwrap();
             let p = parse_peer(p);
-            let trl = *kind == "trl";
+            let fl = parse_flags(kind);
             let sec = unhex(section);
-            let (res, w, id) = if *role == "srv" {
-                let (r, w) = drive(move |w, c| rx_srv(w, trl, l, p, sec, c), Side::Server);
-                (r, w, 0u64)
+            let (res, w) = if *role == "srv" {
+                drive(move |w, c| rx_srv(w, fl, l, p, sec, c), Side::Server)
             } else {
-                let (r, w) = drive(move |w, c| rx_cli(w, trl, l, p, sec, c), Side::Client);
-                (r, w, 0u64)
+                drive(move |w, c| rx_cli(w, fl, l, p, sec, c), Side::Client)
+            };
+            // the task reports the stream the message under test travelled on
+            let (res, id) = match res.rsplit_once(" id=") {
+                Some((r, i)) => (r.to_string(), i.parse::<u64>().unwrap_or(0)),
+                None => (res.clone(), 0),
             };
             // what h3 wrote on the message stream in reaction (the client's own request is skipped)
             let tx = {
                 let g = w.lock().unwrap();
                 let all = g.streams.get(&id).map(|s| s.tx.clone()).unwrap_or_default();
                 if *role == "cli" {
-                    // request HEADERS frame written by send_request comes first
                     let mut pos = 0;
                     let _ = read_varint(&all, &mut pos);
                     let len = read_varint(&all, &mut pos).unwrap_or(0) as usize;
@@ -541,9 +782,38 @@ fn main() {
             };
             format!("res={} tx={} log={}", res, tx, log_of(&w, id))
         }
+        // what the endpoint tells its peer: the MAX_FIELD_SECTION_SIZE of its own SETTINGS frame
+        ["lim.adv", role, l] => {
+            let l: u64 = l.parse().unwrap();
+            let (_r, w) = if *role == "srv" {
+                drive(
+                    move |w, c| async move {
+                        let mut b = h3::server::builder();
+                        b.send_grease(false).max_field_section_size(l);
+                        let conn: Option<Result<h3::server::Connection<SimConn, Bytes>, _>> = cancellable(b.build(SimConn { world: w.clone() }), &c).await;
+                        std::mem::forget(conn);
+                        String::new()
+                    },
+                    Side::Server,
+                )
+            } else {
+                drive(
+                    move |w, c| async move {
+                        let mut b = h3::client::builder();
+                        b.send_grease(false).max_field_section_size(l);
+                        let conn: Option<Result<(h3::client::Connection<SimConn, Bytes>, h3::client::SendRequest<SimOpener, Bytes>), _>> =
+                            cancellable(b.build(SimConn { world: w.clone() }), &c).await;
+                        std::mem::forget(conn);
+                        String::new()
+                    },
+                    Side::Client,
+                )
+            };
+            format!("adv={}", advertised(&w))
+        }
         ["lim.tx", role, own, p, ops] => {
             let own: u64 = own.parse().unwrap();
-            let p: Option<u64> = if *p == "-" { None } else { Some(p.parse().unwrap()) };
+            let p: Vec<u8> = parse_peer(p).expect("driver: lim.tx needs a SETTINGS description");
             let ops: Vec<String> = ops.split(',').map(|s| s.to_string()).collect();
             let (res, _w) = if *role == "srv" {
                 drive(move |w, c| tx_srv(w, own, p, ops, c), Side::Server)
@@ -554,7 +824,7 @@ fn main() {
         }
         ["lim.txw", "cli", own, p, k] => {
             let own: u64 = own.parse().unwrap();
-            let p: Option<u64> = if *p == "-" { None } else { Some(p.parse().unwrap()) };
+            let p: Vec<u8> = parse_peer(p).expect("driver: lim.txw needs a SETTINGS description");
             let k: u64 = k.parse().unwrap();
             let (res, _w) = drive_with(move |w, c| txw_cli(w, own, p, k, c), Side::Client, 0);
             format!("ok {}", res)
